@@ -291,8 +291,8 @@ func run(c *mon.Case) {
 
 func main() {
 	mon.Main(mon.Spec{
-		Prop: "C20",
-		Rule: "case = generated ELF file (own writer: class 32/64, LE/BE, e_type 0..4, 0..4 segments incl. non-LOAD types, bss, memsz<filesz, empty, adjacent and overlapping, absurd in-memory sizes; 0..4 sections incl. non-executable, NOBITS, other types, zero address, empty, adjacent and overlapping; shuffled tables) plus 6 hostile variants of it (truncation at a structural boundary, header bit flip); non-trivial = file that must be rejected (type none/rel/core, overlapping segments or sections) or accepted file with >=2 loadable segments or >=2 code sections; distinct by description",
+		Prop:        "C20",
+		Rule:        "case = generated ELF file (own writer: class 32/64, LE/BE, e_type 0..4, 0..4 segments incl. non-LOAD types, bss, memsz<filesz, empty, adjacent and overlapping, absurd in-memory sizes; 0..4 sections incl. non-executable, NOBITS, other types, zero address, empty, adjacent and overlapping; shuffled tables) plus 6 hostile variants of it (truncation at a structural boundary, header bit flip); non-trivial = file that must be rejected (type none/rel/core, overlapping segments or sections) or accepted file with >=2 loadable segments or >=2 code sections; distinct by description",
 		Explanation: "oracle: the generator's model of the file it wrote: expected program memory (file bytes then zeros to memsz per PT_LOAD) and code image (non-empty, executable, address-bearing PROGBITS sections), compared block by block and through Memory.Address probes at block starts, interiors, ends and neighbours; must-reject files must be rejected; an unexpected error alone is never a violation (counted); hostile variants are judged for 'no panic' only",
 		Assumptions: []string{"files are written to /verif/work and removed after each case", "each shard runs under RLIMIT_AS 6 GiB so that absurd sizes fail fast"},
 		Cases: func(t string) int {
